@@ -383,6 +383,109 @@ fn hunt() -> Result<(), String> {
     Ok(())
 }
 
+// ---------------------------------------------------------------------------------------------------------
+// `hunt_setops`: the same idea for the set operations on whole-map views (run only after a failed Verus obligation of
+// C05-C08 / C13): every pair of key subsets of the 7 prefixes, operands built canonically or with leftover value-less
+// nodes, right operand also with host bits; union / intersection / difference / covering_difference and their *_mut
+// twins against lists computed from two abstract maps.
+// ---------------------------------------------------------------------------------------------------------
+type SetOracle = std::collections::BTreeMap<Vec<u8>, ((u8, u8), u16)>;
+
+fn build_sub(mask: u32, leftover: bool, host: u8, base: u16) -> (PrefixMap<P, u16>, SetOracle) {
+    let mut m: PrefixMap<P, u16> = PrefixMap::new();
+    let mut o = SetOracle::new();
+    if leftover { for k in 0..7 { m.insert(KEYS[k], 999); } }
+    for k in 0..7 {
+        if mask >> k & 1 == 1 { let p = hrep(k, host); m.insert(p, base + k as u16); o.insert(okey(KEYS[k]), (p, base + k as u16)); }
+        else if leftover { m.remove_keep_tree(&KEYS[k]); }
+    }
+    (m, o)
+}
+
+fn lpm_in(o: &SetOracle, key: &[u8]) -> Option<((u8, u8), u16)> {
+    o.iter().filter(|(k, _)| covers(k, key)).max_by_key(|(k, _)| k.len()).map(|(_, v)| *v)
+}
+
+fn hunt_setops() -> Result<(), String> {
+    std::panic::set_hook(Box::new(|_| {}));
+    let mut n = 0u64;
+    for am in 0..128u32 {
+        for al in [false, true] {
+            let (mut a, oa) = build_sub(am, al, 0, 10);
+            for bm in 0..128u32 {
+                for (bl, bh) in [(false, 0u8), (true, 0u8), (false, 0x15u8)] {
+                    let (mut b, ob) = build_sub(bm, bl, bh, 50);
+                    n += 1;
+                    let ctx = |what: &str, got: String, want: String| format!("a = {:?}{}, b = {:?}{}: {what} yields {got}, expected {want}", oa.values().collect::<Vec<_>>(), if al { " (+ leftover value-less nodes)" } else { "" }, ob.values().collect::<Vec<_>>(), if bl { " (+ leftover value-less nodes)" } else { "" });
+                    let r = std::panic::catch_unwind(std::panic::AssertUnwindSafe(|| -> Result<(), String> {
+                        // union
+                        let mut want_u: Vec<String> = Vec::new();
+                        let keys: std::collections::BTreeSet<&Vec<u8>> = oa.keys().chain(ob.keys()).collect();
+                        for k in keys {
+                            match (oa.get(k), ob.get(k)) {
+                                (Some(x), Some(y)) => want_u.push(format!("Both({:?}|{:?},{},{})", x.0, y.0, x.1, y.1)),
+                                (Some(x), None) => want_u.push(format!("Left({:?},{},{:?})", x.0, x.1, lpm_in(&ob, k))),
+                                (None, Some(y)) => want_u.push(format!("Right({:?},{:?},{})", y.0, lpm_in(&oa, k), y.1)),
+                                _ => {}
+                            }
+                        }
+                        let fmt_u = |it: &trieview::UnionItem<P, u16, u16>, k: &Vec<u8>| -> String {
+                            match it {
+                                trieview::UnionItem::Both { prefix, left, right } => {
+                                    let (x, y) = (oa.get(k), ob.get(k));
+                                    let ok = x.map(|x| x.0 == **prefix).unwrap_or(false) || y.map(|y| y.0 == **prefix).unwrap_or(false);
+                                    if ok { format!("Both({:?}|{:?},{},{})", x.map(|x| x.0).unwrap_or(**prefix), y.map(|y| y.0).unwrap_or(**prefix), left, right) } else { format!("Both(prefix {:?} stored in neither,{},{})", prefix, left, right) }
+                                }
+                                trieview::UnionItem::Left { prefix, left, right } => format!("Left({:?},{},{:?})", prefix, left, right.map(|(p, v)| (*p, *v))),
+                                trieview::UnionItem::Right { prefix, left, right } => format!("Right({:?},{:?},{})", prefix, left.map(|(p, v)| (*p, *v)), right),
+                            }
+                        };
+                        let got_u: Vec<String> = a.view().union(&b).map(|it| { let p = *it.prefix(); fmt_u(&it, &okey((p.0 & !(0xffu16 >> p.1) as u8, p.1))) }).collect();
+                        if got_u != want_u { return Err(ctx("union", format!("{got_u:?}"), format!("{want_u:?}"))); }
+                        // intersection
+                        let want_i: Vec<(Vec<u8>, u16, u16)> = oa.iter().filter_map(|(k, x)| ob.get(k).map(|y| (k.clone(), x.1, y.1))).collect();
+                        let got_i: Vec<(Vec<u8>, u16, u16)> = a.view().intersection(&b).map(|(p, l, r)| (okey((p.0 & !(0xffu16 >> p.1) as u8, p.1)), *l, *r)).collect();
+                        if got_i != want_i { return Err(ctx("intersection", format!("{got_i:?}"), format!("{want_i:?}"))); }
+                        for (p, _, _) in a.view().intersection(&b) {
+                            let k = okey((p.0 & !(0xffu16 >> p.1) as u8, p.1));
+                            if oa.get(&k).map(|x| x.0) != Some(*p) && ob.get(&k).map(|y| y.0) != Some(*p) { return Err(ctx("intersection", format!("prefix {p:?}"), "a stored representation".into())); }
+                        }
+                        // difference
+                        let want_d: Vec<((u8, u8), u16, Option<((u8, u8), u16)>)> = oa.iter().filter(|(k, _)| !ob.contains_key(*k)).map(|(k, x)| (x.0, x.1, lpm_in(&ob, k))).collect();
+                        let got_d: Vec<((u8, u8), u16, Option<((u8, u8), u16)>)> = a.view().difference(&b).map(|d| (*d.prefix, *d.value, d.right.map(|(p, v)| (*p, *v)))).collect();
+                        if got_d != want_d { return Err(ctx("difference", format!("{got_d:?}"), format!("{want_d:?}"))); }
+                        // covering difference
+                        let want_c: Vec<((u8, u8), u16)> = oa.iter().filter(|(k, _)| lpm_in(&ob, k).is_none()).map(|(_, x)| (x.0, x.1)).collect();
+                        let got_c: Vec<((u8, u8), u16)> = a.view().covering_difference(&b).map(|(p, v)| (*p, *v)).collect();
+                        if got_c != want_c { return Err(ctx("covering_difference", format!("{got_c:?}"), format!("{want_c:?}"))); }
+                        Ok(())
+                    }));
+                    match r { Ok(Ok(())) => {}, Ok(Err(e)) => return Err(e), Err(_) => return Err(ctx("a set operation", "a panic".into(), "no panic".into())) }
+                    // *_mut twins mirror the read-only traversals (prefixes and presence / values)
+                    let r2 = std::panic::catch_unwind(std::panic::AssertUnwindSafe(|| -> Result<(), String> {
+                        let ro_u: Vec<((u8, u8), Option<u16>, Option<u16>)> = a.view().union(&b).map(|it| (*it.prefix(), it.left().map(|x| *x.1).filter(|_| !matches!(it, trieview::UnionItem::Right { .. })), it.right().map(|x| *x.1).filter(|_| !matches!(it, trieview::UnionItem::Left { .. })))).collect();
+                        let mu_u: Vec<((u8, u8), Option<u16>, Option<u16>)> = a.view_mut().union_mut(&mut b).map(|(p, l, r)| (*p, l.map(|x| *x), r.map(|x| *x))).collect();
+                        if ro_u != mu_u { return Err(ctx("union_mut", format!("{mu_u:?}"), format!("{ro_u:?} (= union)"))); }
+                        let ro_i: Vec<((u8, u8), u16, u16)> = a.view().intersection(&b).map(|(p, l, r)| (*p, *l, *r)).collect();
+                        let mu_i: Vec<((u8, u8), u16, u16)> = a.view_mut().intersection_mut(&mut b).map(|(p, l, r)| (*p, *l, *r)).collect();
+                        if ro_i != mu_i { return Err(ctx("intersection_mut", format!("{mu_i:?}"), format!("{ro_i:?} (= intersection)"))); }
+                        let ro_d: Vec<((u8, u8), u16, Option<((u8, u8), u16)>)> = a.view().difference(&b).map(|d| (*d.prefix, *d.value, d.right.map(|(p, v)| (*p, *v)))).collect();
+                        let mu_d: Vec<((u8, u8), u16, Option<((u8, u8), u16)>)> = a.view_mut().difference_mut(&b).map(|d| (*d.prefix, *d.value, d.right.map(|(p, v)| (*p, *v)))).collect();
+                        if ro_d != mu_d { return Err(ctx("difference_mut", format!("{mu_d:?}"), format!("{ro_d:?} (= difference)"))); }
+                        let ro_c: Vec<((u8, u8), u16)> = a.view().covering_difference(&b).map(|(p, v)| (*p, *v)).collect();
+                        let mu_c: Vec<((u8, u8), u16)> = a.view_mut().covering_difference_mut(&b).map(|(p, v)| (*p, *v)).collect();
+                        if ro_c != mu_c { return Err(ctx("covering_difference_mut", format!("{mu_c:?}"), format!("{ro_c:?} (= covering_difference)"))); }
+                        Ok(())
+                    }));
+                    match r2 { Ok(Ok(())) => {}, Ok(Err(e)) => return Err(e), Err(_) => return Err(ctx("a *_mut set operation", "a panic".into(), "no panic".into())) }
+                }
+            }
+        }
+    }
+    println!("STATS hunt_setops evaluations={n}");
+    Ok(())
+}
+
 fn c04_entry_remove() -> Result<(), String> {
     let mut m: PrefixMap<P, u8> = PrefixMap::new();
     m.insert((0x80, 1), 1);
@@ -543,6 +646,7 @@ fn main() {
         ("c19_eq_prefix", c19_eq_prefix),
         ("c19_bounded", c19_bounded),
         ("hunt", hunt),
+        ("hunt_setops", hunt_setops),
         ("c04_entry_remove", c04_entry_remove),
         ("c04_entry_remove_reinsert", c04_entry_remove_reinsert),
         ("c04_view_remove", c04_view_remove),
